@@ -15,8 +15,11 @@ TYPED = {
     'SI': ['0', '1', '2', '17', '999', '9999'],
     'DT': ['2020', '202002', '20200229', '19991231', '1000', '99991231', '20240101'],
     'DTM': ['2020', '202002', '20200229', '2020022913', '202002291359', '20200229135901', '20200229135901.1',
-            '20200229135901.1234', '20200229135901+0100', '2020-0500', '202002291359-1200'],
-    'TM': ['13', '1359', '135901', '135901.12', '135901.1234', '1359+0100', '13-0500', '0000', '235959'],
+            '20200229135901.1234', '20200229135901+0100', '2020-0500', '202002291359-1200',
+            # offsets at and beyond the bounds the library knows: whatever it thinks of them, TOLERANT keeps the text
+            '20240102030405-1300', '20240102030405-1459', '2024+1459', '202401-1201', '20240102+1500'],
+    'TM': ['13', '1359', '135901', '135901.12', '135901.1234', '1359+0100', '13-0500', '0000', '235959',
+           '1200-1300', '1200-1400', '1200+1459', '1200-1201', '1200+1500'],
     'TN': ['5551234', '555-1234', '(02)555-1234', '01 (02)555-1234X12B34Ctext'],
     'SNM': ['1', '12', '0012'],
 }
@@ -37,20 +40,34 @@ def escape_sequences(ec):
     return [esc + l + esc for l in er7ref.letters_for(ec)]
 
 
+def typed_literal(rng, ec, datatype):
+    """a plain-form literal of a typed leaf that holds none of the delimiters of `ec` ('-0.25' is not a number where '-' is
+    the repetition separator)"""
+    marks = set(v for k, v in ec.items() if k not in ('SEGMENT', 'GROUP'))
+    ok = [t for t in TYPED[datatype] if not marks & set(t)]
+    return rng.choice(ok) if ok else WIT.get(datatype, 'x')
+
+
 def leaf_text(rng, ec, datatype='ST', allow_escapes=True, maxlen=8):
     """canonical leaf text: no leading/trailing blank, well-formed escapes, typed literals in plain form"""
     if datatype in TYPED and rng.random() < 0.9:
-        return rng.choice(TYPED[datatype])
+        return typed_literal(rng, ec, datatype)
     if datatype in ('NM', 'SI', 'DT', 'DTM', 'TM', 'TN', 'SNM'):
         return WIT[datatype]
     n = rng.randint(1, maxlen)
     parts = []
+    marks = set(ec.values())
+    plain = [c for c in string.punctuation if c not in marks]
     for i in range(n):
         r = rng.random()
         if allow_escapes and r < 0.12:
             parts.append(rng.choice(escape_sequences(ec)))
         elif r < 0.2 and 0 < i < n - 1:
             parts.append(' ')
+        elif r < 0.3:
+            # punctuation that is no delimiter of *this* set is plain data (it may be the escape character or a
+            # separator of another set used in the same process)
+            parts.append(rng.choice(plain) if plain else 'p')
         else:
             parts.append(rng.choice(ALNUM))
     s = ''.join(parts)
@@ -102,7 +119,7 @@ def field_value(rng, version, row, ec, toks=None, max_reps=3, allow_escapes=True
     def leaf(dt):
         if toks is not None:
             if dt in TYPED and rng.random() < 0.15:
-                return rng.choice(TYPED[dt])      # boundary literals of typed leaves ('0', '2020', ...) among the tokens
+                return typed_literal(rng, ec, dt)      # boundary literals of typed leaves ('0', '2020', ...) among the tokens
             return toks.next()
         return leaf_text(rng, ec, dt, allow_escapes)
 
